@@ -740,6 +740,7 @@ func init() {
 					}
 				}
 			})
+			c08ForgedAcks(c)
 			c.Require("cases_expect_success", 50)
 			c.Require("cases_expect_errno", 50)
 			c.Require("cases_adversarial", 25)
